@@ -3,6 +3,7 @@ import XeofsProofs.Lemmas.Small
 import XeofsProofs.Lemmas.Corr
 import Mathlib.Algebra.BigOperators.Intervals
 import XeofsModel.Generated.Facts
+import XeofsProofs.Lemmas.OpaModel
 /-!
 # C19 — OPA returns uncorrelated series ordered by their own decorrelation time
 -/
@@ -65,5 +66,25 @@ example : Gen.opaLagWeightTimesTwo 3 3 = 1 ∧ Gen.opaLagWeightTimesTwo 2 3 = 2 
 /-- source obligation: the inner EOF that pre-reduces the data keeps its default centring (the PCs must have zero mean for the
 lag covariances to be covariances) -/
 theorem src_opa_inner_eof_centres : Gen.opaInnerEOF.lookup "center" = none := by decide
+
+/-! ### on the executable model `XM.opaFit` (run by the driver next to `OPA._fit_algorithm`) -/
+
+/-- the model's zero-lag covariance is `SᵀS/(n − 1)` (generated denominator) -/
+theorem model_lag0 {n q : ℕ} (S : XM.Mat n q ℝ) :
+    (XM.lagCov (ρ := ℝ) S 0).toMatrix = (((n - 1 : ℕ) : ℝ))⁻¹ • ((S.toMatrix)ᵀ * S.toMatrix) :=
+  XP.OpaM.lagCov_zero S
+
+/-- **opa_scores_uncorrelated_equal_norm on the executable model** -/
+theorem model_scores_uncorrelated_equal_norm {n p q k : ℕ} (S : XM.Mat n q ℝ) (C : XM.Mat p q ℝ) (tauMax : ℕ) (Cinv : XM.Mat q q ℝ)
+    (Ue : XM.Mat q k ℝ) (lam : Fin k → ℝ) (hn : 1 < n)
+    (hW : (Cinv.toMatrix)ᵀ * (XM.lagCov (ρ := ℝ) S 0).toMatrix * Cinv.toMatrix = 1) (hU : (Ue.toMatrix)ᵀ * Ue.toMatrix = 1) :
+    ((XM.opaFit S C tauMax Cinv Ue lam).scores.toMatrix)ᵀ * (XM.opaFit S C tauMax Cinv Ue lam).scores.toMatrix
+      = (((n - 1 : ℕ) : ℝ)) • (1 : Matrix (Fin k) (Fin k) ℝ) :=
+  XP.OpaM.model_scores_gram S C tauMax Cinv Ue lam hn hW hU
+
+/-- the matrix the model hands to the symmetric eigen-solver is symmetric (for a symmetric `Cinv`), so `eigh` applies -/
+theorem model_target_symmetric {q : ℕ} (Cinv M : XM.Mat q q ℝ) (hC : (Cinv.toMatrix)ᵀ = Cinv.toMatrix) :
+    ((XM.opaTarget (ρ := ℝ) Cinv M).toMatrix)ᵀ = (XM.opaTarget (ρ := ℝ) Cinv M).toMatrix :=
+  XP.OpaM.model_target_symmetric Cinv M hC
 
 end C19
